@@ -254,11 +254,56 @@ def h_cli(ctx):
     ctx.outcome("ok")
     ctx.nontrivial()
 
+# ---- way 4: badly conditioned inputs ---------------------------------------------------------------------
+OBS_DEC = [0.1, 0.2, 0.7, 1.3]
+ERR_DEC = [0.0, 0.1]
+SHIFTS = [273.15, -1234.5678, 101325.0]
+
+
+def h_offset(ctx):
+    """Decimal (not exactly representable) values carrying a large common offset, on the forecast only (a unit mix-up:
+    constant error) or on both series (Kelvin data).  The reference is the two-pass / compensated-sum definition on exactly
+    the floats handed to the metric; an implementation that is algebraically equal but cancels catastrophically
+    (one-pass variance) answers NaN or ~1e-6 here, where any stable evaluation is within 1e-12."""
+    n = ctx.choose("length", [2, 3], free=True)
+    S = ctx.choose("shift", SHIFTS, free=True)
+    mode = ctx.choose("mode", ["fcst", "both"], free=True)
+    o = [ctx.choose("obs%d" % i, OBS_DEC, free=True) for i in range(n)]
+    e = [ctx.choose("err%d" % i, ERR_DEC, free=True) for i in range(n)]
+    oi = [a + (S if mode == "both" else 0.0) for a in o]
+    fi = [a + b + S for a, b in zip(o, e)]
+    ctx.note("obs", oi)
+    ctx.note("fcst", fi)
+    sig = []
+    for name in MD.DETERMINISTIC:
+        m = get_metric(name)
+        if name in MD.AGG_AWARE:
+            set_agg(m, "mean")
+        kind, got, site, _ = call_from_obs_fcst(m, oi, fi)
+        exp = MD.metric(name, oi, fi)
+        if kind != "ok":
+            ctx.fail("offset:%s:%s:%s" % (name, kind, site), obs=oi, fcst=fi)
+            continue
+        if exp is None:
+            continue
+        g = float(got) if got is not np.ma.masked else float("nan")
+        ok = (not math.isnan(g)) and abs(exp - g) <= 1e-8 * max(1.0, abs(exp))
+        if not ok and name == "leps":
+            ok = tol_equal(MD.metric("leps-left", oi, fi), got)
+        if not ok:
+            ctx.fail("offset:%s:value" % name, obs=oi, fcst=fi, expected=exp, actual=g)
+        sig.append(round(exp, 9))
+    if not any(e):
+        ctx.flag("constant-error")
+    ctx.observe(tuple(sig))
+    ctx.outcome("%s/%s" % (mode, "constant-error" if not any(e) else "varying-error"))
+    ctx.nontrivial()
+
 
 def plan(tier):
     if tier == "quick":
-        return [("vectors", harness, {"maxlen": 3, "nanlen": 2, "data": True, "datalen": 2}), ("cli", h_cli, {})]
-    return [("vectors", harness, {"maxlen": 4, "nanlen": 3, "data": True, "datalen": 3}), ("cli", h_cli, {})]
+        return [("vectors", harness, {"maxlen": 3, "nanlen": 2, "data": True, "datalen": 2}), ("cli", h_cli, {}), ("offset", h_offset, {})]
+    return [("vectors", harness, {"maxlen": 4, "nanlen": 3, "data": True, "datalen": 3}), ("cli", h_cli, {}), ("offset", h_offset, {})]
 
 
 def run(tier, only=None):
@@ -268,6 +313,12 @@ def run(tier, only=None):
             continue
         t0 = time.time()
         st = explore.explore(h, mode="full", params=params, repo_root=core.REPO, time_cap=(300 if tier == "quick" else 3000))
+        if name == "offset":
+            subs.append(core.Sub.from_e1(name, st, bound="full product: length {2,3} x offsets %r x {forecast only, both} x 4 decimal obs values x 2 errors per position" % (SHIFTS,),
+                                         rule="one execution = one offset vector pair, 22 metrics against the two-pass reference (1e-8 relative); "
+                                              "non-trivial = every execution (all have valid pairs)",
+                                         required_flags=("constant-error",), wall=time.time() - t0))
+            continue
         subs.append(core.Sub.from_e1(name, st, bound="full product of vector pairs %r over a 5-value alphabet" % (params,),
                                      rule="one execution = one (obs, fcst) vector pair (+ optional NaN position): 22 metrics, 7 x 18 aggregator variants, "
                                           "within x 3 intervals, and (short vectors) Data-level compute on axes no/obs/fcst; non-trivial = at least one valid pair",
